@@ -383,6 +383,7 @@ func TestVerifC11API(t *testing.T) {
 		kit.C11Drive(rec, kit.C11Entry{Name: e.entry, N: n, Workers: 8, Budget: 120 * time.Second,
 			Gen: verifC11APIGen, Exec: h.verifExec(e.entry, e.path), SampleEvery: 5000})
 	}
+	h.verifRawDrive(rec) // request framing over raw sockets, see zz_verif_c11_raw_test.go
 	rec.Count("messages_handed_to_zmq", h.snd.n)
 	rec.Count("handler_panics_logged_by_net_http", h.elog.n)
 }
@@ -411,6 +412,8 @@ func verifC11APIFuzz(f *testing.F, entry, path string) {
 				req.ContentLength = -1
 			case 14:
 				req.ContentLength = int64(len(body) / 2)
+			case 15: // the announced length is the client's to choose, independently of the body
+				req.ContentLength = []int64{int64(len(body)) + 1, int64(len(body)) + 1000000, 1<<31 - 1, 1 << 31, 1 << 49, 1 << 62, 1<<63 - 1}[int(sel&0x0f)%7]
 			}
 			for _, v := range verifC11XFF[(sel>>1)&7] {
 				req.Header.Add("X-Forwarded-For", v)
